@@ -406,6 +406,30 @@ theorem factoryOfText_empty (n : LibName) : factoryOfText n "" = .error (.libNot
   rw [factoryOfText.go]
   simp [Read.nextDatum, Read.advance, bind, Except.bind, Read.currentDatum, Read.fuelFor]
 
+theorem scanStart_empty_next : ∃ s', Read.nextDatum (scanStart "") = .ok (none, s') := by
+  have hs : Lex.skipAtmosphere false [] (1, 1) = ([], (1, 1)) := by
+    rw [Lex.skipAtmosphere]
+  have h0 : Lex.all [] = ([], none) := by
+    simp [Lex.all, Lex.allAux, Lex.next, hs, Lex.token]
+  have h1 : "".toList = [] := rfl
+  simp [scanStart, h1, Read.ofText, h0, Read.nextDatum, Read.advance, bind, Except.bind,
+    Read.currentDatum, Read.fuelFor]
+
+theorem not_definesLibrary_empty (n : LibName) : ¬ ∃ decls, DefinesLibrary "" n decls := by
+  have key : ∀ s env, Scanned "" s env → s = scanStart "" := by
+    intro s env h
+    induction h with
+    | start => rfl
+    | next _ hnd _ ih =>
+      subst ih
+      obtain ⟨s', hs'⟩ := scanStart_empty_next
+      rw [hs'] at hnd; cases hnd
+  rintro ⟨decls, s, env, d, s', loc, env', hs, hnd, -⟩
+  have := key s env hs
+  subst this
+  obtain ⟨s'', hs''⟩ := scanStart_empty_next
+  rw [hs''] at hnd; cases hnd
+
 /-- a file that cannot give a factory: the error, and the state untouched -/
 theorem getLibrary_file_error {fuel : Nat} {st : State} {n : LibName} {loc : Loc} {t : String} {e : SErr}
     (hi : libLookup st.instances n = none) (hf : libLookup st.factories n = none)
